@@ -101,21 +101,29 @@ func TestDemo_C04_Key65536Bytes_SilentlyLost(t *testing.T) {
 }
 
 // Insert does not compare len(value) with the declared value size: a longer value is silently truncated,
-// a shorter one silently zero-padded, so Lookup does not return the value that was inserted.
-func TestDemo_C04_WrongValueLength_SilentlyAltered(t *testing.T) {
-	for _, l := range []int{7, 9} {
-		val := bytes.Repeat([]byte{0x55}, l)
-		data, err := demoBuild(t, 8, [][]byte{[]byte("key")}, [][]byte{val})
-		if err != nil {
-			continue // rejecting the value with an error is fine
-		}
-		db, err := Open(bytes.NewReader(data))
-		if err != nil {
-			t.Fatal(err)
-		}
-		got, err := db.Lookup([]byte("key"))
-		if err != nil || !bytes.Equal(got, val) {
-			t.Errorf("value of %d bytes in an index with 8-byte values: Insert and Seal returned no error, Lookup -> %x (err=%v), inserted %x", l, got, err, val)
-		}
+// so Lookup returns fewer bytes than were inserted (data loss without an error).
+func TestDemo_C04_LongerValue_SilentlyTruncated(t *testing.T) {
+	demoWrongLen(t, 9)
+}
+
+// ... and a shorter value is silently zero-padded, so Lookup does not return the value that was inserted.
+// (indexes.TestSlotToCid / TestSigToCid insert 7-byte pseudo-CIDs as filler and rely on this.)
+func TestDemo_C04_ShorterValue_SilentlyPadded(t *testing.T) {
+	demoWrongLen(t, 7)
+}
+
+func demoWrongLen(t *testing.T, l int) {
+	val := bytes.Repeat([]byte{0x55}, l)
+	data, err := demoBuild(t, 8, [][]byte{[]byte("key")}, [][]byte{val})
+	if err != nil {
+		return // rejecting the value with an error is fine
+	}
+	db, err := Open(bytes.NewReader(data))
+	if err != nil {
+		t.Fatal(err)
+	}
+	got, err := db.Lookup([]byte("key"))
+	if err != nil || !bytes.Equal(got, val) {
+		t.Errorf("value of %d bytes in an index with 8-byte values: Insert and Seal returned no error, Lookup -> %x (err=%v), inserted %x", l, got, err, val)
 	}
 }
